@@ -9,7 +9,10 @@ mkdir -p "$SCRATCH/repo"
 # also carry uncommitted working-tree state of src
 rsync -a /repo/src/ "$SCRATCH/repo/src/" --exclude '__pycache__' --exclude '*.egg-info'
 if [ "$1" = "--revert" ]; then
-  (cd /repo && git show "$2" -- src) | (cd "$SCRATCH/repo" && patch -R -p1 -s)
+  # several commits may be given separated by commas (reverted in the given order, newest first)
+  for c in $(echo "$2" | tr ',' ' '); do
+    (cd /repo && git show "$c" -- src) | (cd "$SCRATCH/repo" && patch -R -p1 -s)
+  done
   shift 2
 else
   (cd "$SCRATCH/repo" && patch -p1 -s < "$1")
